@@ -1,13 +1,160 @@
 (* C09/Properties.v — the property theorems, nothing else.
-   C09: Merkle membership proofs vouch only for committed leaves. *)
-From MV Require Import Base.Prelude Base.SymHash C09.StmTree C09.StmProofs.
+   C09: Merkle membership proofs cannot vouch for anything outside the committed set.
+   Idealisation (DESIGN section 4): digests are terms.  H-inj = injectivity of BHash
+   (used through Node_inj / LeafH_inj / bt_eqb_eq); H-sep = a leaf digest is not a node
+   digest (LeafH_not_Node: pre-images of different length), a claimed STM payload is not the
+   padding pre-image [0], and (MMR) a claimed leaf is an *atom*: not itself the Blake2s
+   digest of two nodes. *)
+From Coq Require Import Lia.
+From MV Require Import Base.Prelude Base.SymHash C09.StmTree C09.Mmr
+  C09.StmProofs C09.StmComplete C09.StmPath C09.MmrProofs C09.MmrComplete C09.Corollaries.
 Open Scope N_scope.
 
-(* STM batch path, every tree size: if the verifier accepts (leaves, path) against the
-   commitment (root, number of leaves) of the tree over L, then every claimed leaf is the
-   committed leaf at its stated index.  H-sep: a leaf payload is not the padding pre-image. *)
+(* ------------------------------------------------------------------ STM batch path *)
+
+(* Soundness, every tree size: if the verifier accepts (leaves, path) against the commitment
+   (root, number of leaves) of the tree over L, every claimed leaf is the committed leaf at
+   its stated index (in particular the index is in range). *)
 Theorem C09_stm_sound : forall (L leaves vals : list bt) (indices : list N),
   ver_bpath (mt_root (mk_tree L)) (N.of_nat (length L)) leaves vals indices = Ok true ->
   forall j idx p, nth_error indices j = Some idx -> nth_error leaves j = Some p -> p <> BLit [0] ->
     idx < N.of_nat (length L) /\ nth_error L (N.to_nat idx) = Some p.
 Proof. exact stm_sound. Qed.
+
+(* The same for any claimed number of leaves (the verifier never checks idx < nr_leaves):
+   acceptance against the committed root still pins every claimed leaf to a committed leaf,
+   at the heap position idx + np2(claimed) - 1. *)
+Theorem C09_stm_sound_any_nr : forall (L leaves vals : list bt) (indices : list N) (nrl : N),
+  ver_bpath (mt_root (mk_tree L)) nrl leaves vals indices = Ok true ->
+  forall j idx p, nth_error indices j = Some idx -> nth_error leaves j = Some p -> p <> BLit [0] ->
+    exists idx', idx + np2 nrl = idx' + np2 (N.of_nat (length L)) /\
+                 idx' < N.of_nat (length L) /\ nth_error L (N.to_nat idx') = Some p.
+Proof. exact stm_sound_any. Qed.
+
+(* Completeness, every tree size that fits usize: for a non-empty strictly increasing in-range
+   index list the generator does not panic and its path verifies with the committed leaves. *)
+Theorem C09_stm_complete : forall (L : list bt) (indices : list N),
+  indices <> [] -> inc indices -> (forall i, In i indices -> i < N.of_nat (length L)) ->
+  N.of_nat (length L) + np2 (N.of_nat (length L)) < U64 ->
+  exists vals,
+    gen_bpath (mk_tree L) indices = Ok (vals, indices) /\
+    ver_bpath (mt_root (mk_tree L)) (N.of_nat (length L))
+      (map (fun i => nth (N.to_nat i) L (BLit [])) indices) vals indices = Ok true.
+Proof. exact stm_complete. Qed.
+
+(* Mutation rejection.  A replaced leaf and a moved leaf are the same statement: a claimed
+   (index, payload) pair that is not the committed one is never accepted. *)
+Corollary C09_stm_rejects_wrong_leaf : forall (L leaves vals : list bt) (indices : list N) j idx p,
+  nth_error indices j = Some idx -> nth_error leaves j = Some p -> p <> BLit [0] ->
+  nth_error L (N.to_nat idx) <> Some p ->
+  ver_bpath (mt_root (mk_tree L)) (N.of_nat (length L)) leaves vals indices <> Ok true.
+Proof. exact stm_rejects_wrong_leaf. Qed.
+
+Corollary C09_stm_rejects_out_of_range : forall (L leaves vals : list bt) (indices : list N) j idx p,
+  nth_error indices j = Some idx -> nth_error leaves j = Some p -> p <> BLit [0] ->
+  N.of_nat (length L) <= idx ->
+  ver_bpath (mt_root (mk_tree L)) (N.of_nat (length L)) leaves vals indices <> Ok true.
+Proof. exact stm_rejects_out_of_range. Qed.
+
+(* an altered root: one input verifies against at most one root *)
+Corollary C09_stm_rejects_other_root : forall r r' nrl leaves vals indices,
+  ver_bpath r nrl leaves vals indices = Ok true -> r' <> r ->
+  ver_bpath r' nrl leaves vals indices <> Ok true.
+Proof. exact stm_rejects_other_root. Qed.
+
+(* An accepted path is determined: the values the verifier reads are exactly the committed
+   nodes the generator emits for the same index list; anything behind them is never read.
+   Hence an altered / dropped / shifted *used* path value is rejected. *)
+Theorem C09_stm_path_determined : forall (L leaves vals : list bt) (indices : list N),
+  ver_bpath (mt_root (mk_tree L)) (N.of_nat (length L)) leaves vals indices = Ok true ->
+  exists unread, vals = honest_vals L indices ++ unread.
+Proof. exact stm_path_determined. Qed.
+
+Corollary C09_stm_rejects_altered_value : forall (L leaves vals : list bt) (indices : list N) k,
+  (k < length (honest_vals L indices))%nat ->
+  nth_error vals k <> nth_error (honest_vals L indices) k ->
+  ver_bpath (mt_root (mk_tree L)) (N.of_nat (length L)) leaves vals indices <> Ok true.
+Proof. exact stm_rejects_altered_value. Qed.
+
+(* ------------------------------------------------------------------ MKProof over the MMR *)
+
+(* Soundness (H-inj only): a verified proof vouches only for sub-terms of its root: every
+   entry of inner_leaves, hence everything `contains` answers yes to. *)
+Theorem C09_mmr_sound : forall p, mk_verify p = true ->
+  forall e, In e (p_leaves p) -> sub (snd e) (p_root p).
+Proof. exact mk_verify_sound. Qed.
+
+Theorem C09_mmr_contains_sound : forall p xs, mk_verify p = true -> mk_contains p xs = true ->
+  forall x, In x xs -> sub x (p_root p).
+Proof. exact mk_sound. Qed.
+
+(* With H-sep (leaves are atoms): against the root of the tree over xs, a verified proof
+   `contains` only committed leaves. *)
+Theorem C09_mmr_sound_committed : forall xs p vs, (forall l, In l xs -> atom l) ->
+  mmr_root xs = Some (p_root p) -> mk_verify p = true -> mk_contains p vs = true ->
+  forall x, In x vs -> atom x -> In x xs.
+Proof. exact mk_sound_committed. Qed.
+
+(* Mutation rejection: a proof carrying a leaf that is not committed (replaced leaf) does not
+   verify against the committed root; nor does any proof under another root than its own. *)
+Corollary C09_mmr_rejects_foreign_leaf : forall xs p e, (forall l, In l xs -> atom l) ->
+  mmr_root xs = Some (p_root p) -> In e (p_leaves p) -> atom (snd e) -> ~ In (snd e) xs ->
+  mk_verify p = false.
+Proof. exact mmr_rejects_foreign_leaf. Qed.
+
+Corollary C09_mmr_rejects_other_root : forall p r', mk_verify p = true -> r' <> p_root p ->
+  mk_verify {| p_root := r'; p_leaves := p_leaves p; p_size := p_size p; p_items := p_items p |} = false.
+Proof. exact mmr_rejects_other_root. Qed.
+
+(* The dependency's verification alone (the code before fix d9e64fb26) is refuted: the witness
+   verifies, `contains` a leaf that is not committed, and the fixed verify rejects it. *)
+Theorem C09_ckb_verify_alone_refuted :
+  mmr_root L5 = Some (p_root dup_witness) /\ ckb_verify dup_witness = true /\
+  mk_contains dup_witness [FAKE] = true /\ ~ In FAKE L5 /\ mk_verify dup_witness = false.
+Proof. exact ckb_alone_unsound. Qed.
+
+(* ------------------------------------------------------------------ MKMapProof *)
+
+Theorem C09_map_sound : forall p x, map_verify p = true -> map_contains p x = true ->
+  sub x (map_root p).
+Proof. exact map_sound. Qed.
+
+(* linkage: every sub-proof of a verified map proof verifies itself and (key, its root) is a
+   verified leaf of the master proof *)
+Theorem C09_map_linkage : forall m subs k q, map_verify (MapProof m subs) = true -> In (k, q) subs ->
+  map_verify q = true /\ sub (Mrg k (map_root q)) (p_root m).
+Proof. exact map_linkage. Qed.
+
+(* One level of nesting as used for block ranges, with H-sep: an atom vouched for by a
+   verified map proof under the committed root is a key or a committed leaf of some range. *)
+Theorem C09_map_sound_committed : forall ranges ms p x,
+  (forall k xs, In (k, xs) ranges -> forall l, In l xs -> atom l) ->
+  master_leaves ranges = Some ms -> mmr_root ms = Some (map_root p) ->
+  map_verify p = true -> map_contains p x = true -> atom x ->
+  (exists k xs, In (k, xs) ranges /\ x = BLit k) \/ (exists k xs, In (k, xs) ranges /\ In x xs).
+Proof. exact map_sound_committed. Qed.
+
+(* ------------------------------------------------------------------ MMR completeness, bounded *)
+(* Finite-domain theorem (the bound 12 is part of the statement): for canonical distinct
+   leaves and every non-empty increasing selection, compute_proof succeeds, the proof verifies
+   against the committed root and contains the selected leaves. *)
+Theorem C09_mmr_complete : forall n sel, (1 <= n <= 12)%nat -> In sel (sublists (nseqN 0 n)) ->
+  complete_at n sel = true.
+Proof. exact mmr_complete_bounded. Qed.
+
+(* ------------------------------------------------------------------ non-vacuity *)
+Definition ex_L : list bt := [BLit [1; 1]; BLit [2; 2]; BLit [3; 3]].
+Example C09_ex_stm :
+  (exists vals, gen_bpath (mk_tree ex_L) [0; 2] = Ok (vals, [0; 2]) /\
+     ver_bpath (mt_root (mk_tree ex_L)) 3 [BLit [1; 1]; BLit [3; 3]] vals [0; 2] = Ok true /\
+     ver_bpath (mt_root (mk_tree ex_L)) 3 [BLit [1; 1]; BLit [9; 9]] vals [0; 2] = Ok false /\
+     ver_bpath (mt_root (mk_tree ex_L)) 3 [BLit [1; 1]; BLit [3; 3]] vals [0; 1] = Ok false).
+Proof. eexists. vm_compute. repeat split. Qed.
+
+Example C09_ex_mmr :
+  match mk_compute_proof L5 [1; 2] with
+  | Ok p => mk_verify p = true /\ mmr_root L5 = Some (p_root p) /\
+            mk_contains p [BLit [1]; BLit [2]] = true /\ mk_contains p [BLit [0]] = false
+  | _ => False
+  end.
+Proof. vm_compute. repeat split. Qed.
